@@ -6,16 +6,18 @@ import vlib
 
 LEVEL = "proof"
 PROPS = "Convert/Props_C14.v"
-COQ_FILES = ["Convert/Bytes.v", "Convert/Generated_PurlTypes.v", "Convert/Purl.v", "Convert/Pkg.v", "Convert/Index.v",
+COQ_FILES = ["Convert/Bytes.v", "Convert/Generated_PurlTypes.v", "Convert/Generated_ProtoMeta.v", "Convert/Purl.v", "Convert/Pkg.v", "Convert/Index.v",
              "Convert/Proto.v", "Convert/Sbom.v", "Convert/Cases14.v", "Convert/BytesProofs.v", "Convert/Proofs.v",
              "Convert/Props_C14.v"]
 THEOREMS = ["emitted_types_valid", "valid_type_case_insensitive",
             "norm_idempotent", "purl_roundtrip_idempotent", "purl_roundtrip_accepts", "purl_roundtrip_rejects_invalid_type",
             "index_returns_package", "index_get_specific_exact", "index_get_all_of_type_exact",
-            "proto_preserves", "proto_preserves_inventory", "spdx_preserves_on_D", "spdx_exact_skips",
+            "proto_preserves", "proto_preserves_inventory", "every_emitted_metadata_type_has_proto_case_refuted",
+            "every_emitted_metadata_type_has_proto_case_on_D", "metadata_exclusions_exact", "spdx_preserves_on_D", "spdx_exact_skips",
             "spdx_locations_refuted", "cdx_preserves", "sbom_records_ignore_layer_details",
             "converters_panic_iff_nil_extractor"]
-FLAG_NAMES_MODEL = ["purl print/parse (packageurl-go law + validType)", "packageindex", "proto", "spdx", "cdx"]
+FLAG_NAMES_MODEL = ["purl print/parse (packageurl-go law + validType)", "packageindex", "proto", "spdx", "cdx",
+                    "setProtoMetadata oneof case"]
 FLAG_NAMES_SPEC = ["non-empty name and >=1 location", "purl type accepted + print/parse idempotent",
                    "index returns the package", "proto preserves fields", "spdx preserves fields", "cdx preserves fields"]
 
@@ -31,16 +33,22 @@ META = {
                   "(index_returns_package, index_get_specific_exact); proto / SPDX / CycloneDX record maps preserve name, "
                   "version, locations, purl and (proto) layer details for all packages, with SPDX's skips stated exactly "
                   "(proto_preserves, spdx_preserves_on_D, spdx_exact_skips, cdx_preserves); converters panic iff a package has "
-                  "no Extractor. PARTIAL (exploration, not proved): 'ToPURL/Ecosystem of the 57 extractors never panic on what "
+                  "no Extractor; setProtoMetadata's dispatch is modelled as the regenerated clause table "
+                  "(every_emitted_metadata_type_has_proto_case_on_D / _refuted; the chosen oneof case is compared for every "
+                  "harvested package). PARTIAL (exploration, not proved): 'ToPURL/Ecosystem of the 57 extractors never panic on what "
                   "they emit' and 'non-empty name, >= 1 location' are checked on the harvested packages only (fixtures, "
-                  "mutated fixtures that still parse); the proto metadata oneof (setProtoMetadata) is not modelled.",
+                  "mutated fixtures that still parse, generated SBOM documents, C03 generator dumps in the thorough tier); the field "
+                  "contents inside the proto metadata messages are not modelled. Standalone extractors (Windows registry/DISM, "
+                  "netports, standalone containerd) and java/pomxmlnet (network) cannot run here: their purl types and metadata "
+                  "types are covered statically by the translator tables only (listed in evidence: statically_checked_only).",
     "level_note": "Trusted: Coq kernel + vm_compute; translator harness/cmd/purltypes (go/ast, ~250 lines, output is readable "
                   "data); harness harness/cmd/convert (projection of UUIDs/time stamps, position numbering of pointers); "
                   "packageurl-go ToString/FromString enter the theorems only through the hypothesis "
                   "`pparse (pstring p) = norm p`, which is validated against the real library on every harvested and "
                   "generated purl. Known findings: SPDX record mentions two locations; SBOM records carry no layer details; "
-                  "dotnet/pe and chrome/extensions emit no locations; renvlock version-less cran purl; sbom/spdx clears the name "
-                  "on a rejected purl. Fixed (regression witnesses): snap in validType, cargotoml empty package.",
+                  "dotnet/pe and chrome/extensions emit no locations; renvlock version-less cran purl; "
+                  "metadata types without a result-proto case (side finding). Fixed (regression witnesses): snap in validType, "
+                  "cargotoml empty package, sbom/spdx name kept on a rejected purl.",
     "design_ref": "DESIGN.md section 5 C14",
 }
 
@@ -55,13 +63,14 @@ def translate(ctx):
     if binp is None:
         return None, out
     gen = os.path.join(vlib.COQ, "theories", "Convert", "Generated_PurlTypes.v")
+    gen2 = os.path.join(vlib.COQ, "theories", "Convert", "Generated_ProtoMeta.v")
     js = os.path.join(vlib.BUILD, "purltypes.json")
-    before = open(gen).read() if os.path.exists(gen) else ""
-    rc, out = vlib.sh([binp, "-repo", vlib.REPO, "-out", gen, "-json", js], timeout=120)
+    before = [open(g).read() if os.path.exists(g) else "" for g in (gen, gen2)]
+    rc, out = vlib.sh([binp, "-repo", vlib.REPO, "-out", gen, "-protoout", gen2, "-json", js], timeout=120)
     if rc != 0:
         return None, out
     data = json.load(open(js))
-    data["generated_file_changed"] = (open(gen).read() != before)
+    data["generated_file_changed"] = ([open(g).read() for g in (gen, gen2)] != before)
     return data, out
 
 
@@ -96,6 +105,17 @@ def retranslate_guard(ctx, cases_vo):
         rc, mout = ctx.coq_make([cases_vo])
         if rc != 0:
             raise RuntimeError("rebuild after re-translation failed: " + mout[-1500:])
+
+
+def static_only(types):
+    """Extractor sources that contribute purl types / metadata types to the translator tables but cannot be run here."""
+    def cannot_run(f):
+        return f.startswith("extractor/standalone/") or "/pomxmlnet/" in f
+    purl_refs = sorted({"%s (%s)" % (r["file"], r["value"]) for r in types["refs"] if cannot_run(r["file"])})
+    meta_refs = sorted({"%s (%s%s)" % (r["file"], "*" if r["pointer"] else "", r["type"].split("/")[-1])
+                        for r in (types.get("proto_meta") or {}).get("metadata_refs", []) if cannot_run(r["file"])})
+    return {"purl_type_references": purl_refs, "metadata_type_references": meta_refs,
+            "why": "standalone extractors need Windows / a running system, java/pomxmlnet needs the network"}
 
 
 def tail14(name):
@@ -214,12 +234,31 @@ def run(ctx):
     d = os.path.join(vlib.BUILD, "cases")
     os.makedirs(d, exist_ok=True)
     vfile, side, summ = (os.path.join(d, "C14_cases" + x) for x in (".v", ".jsonl", "_summary.json"))
+    dump = None
+    if ctx.tier == "thorough":
+        # C03 generators ("generated well-formed inputs"): dump at production paths, every case directory a scan root
+        import shutil
+        fbin, fout = ctx.harness_build("formats")
+        if fbin is not None:
+            dump = os.path.join(d, "C14_c03dump")
+            shutil.rmtree(dump, ignore_errors=True)
+            os.makedirs(os.path.join(d, "C14_c03out"), exist_ok=True)
+            rc, fo = vlib.sh([fbin, "-outdir", os.path.join(d, "C14_c03out"), "-dumpdir", dump, "-seed", str(ctx.seed),
+                              "-n", "60", "-mal", "20"], timeout=600)
+            if rc != 0:
+                ctx.notes.append("formats -dumpdir failed, C03 stream missing in this run: " + fo[-300:])
+                dump = None
+        else:
+            ctx.notes.append("formats harness does not build, C03 stream missing in this run")
     if ctx.tier == "thorough":
         args = ["-cross", "-pergroup", "60", "-mutants", "800", "-synth", "600", "-maxpkgs", "8000", "-sbomdocs", "800"]
     else:
         args = ["-pergroup", "14", "-mutants", "100", "-synth", "100", "-maxpkgs", "1100", "-sbomdocs", "100"]
     rc, out = vlib.sh([binp, "-repo", vlib.REPO, "-out", vfile, "-jsonl", side, "-summary", summ, "-seed", str(ctx.seed),
-                       "-types", os.path.join(vlib.BUILD, "purltypes.json")] + args, timeout=1500)
+                       "-types", os.path.join(vlib.BUILD, "purltypes.json")] + args + (["-c03dump", dump] if dump else []), timeout=1500)
+    if dump:
+        shutil.rmtree(dump, ignore_errors=True)
+        shutil.rmtree(os.path.join(d, "C14_c03out"), ignore_errors=True)
     if rc != 0:
         raise RuntimeError("harness failed: " + out[-2000:])
     cases = [json.loads(l) for l in open(side)]
@@ -274,6 +313,12 @@ def run(ctx):
         "packages_known_unparseable_cran_without_version": counts[1],
         "packages_with_more_than_two_locations": counts[2],
         "purl_name_differs_from_package_name": summary["purl_name_differs_from_package_name"],
+        "oversize_packages_left_out_of_coq_cases": summary.get("oversize_packages_left_out", 0),
+        "oversize_rule": "a harvested package whose name + version + locations exceed 1500 bytes (an extractor forced onto a "
+                         "binary of another extractor's testdata) is run through ToPURL/Ecosystem only and not handed to Coq",
+        "c03_generator_roots_scanned": summary.get("c03_roots", 0),
+        "metadata_type_to_proto_case_observed": summary.get("metadata_types"),
+        "statically_checked_only": static_only(types),
         "hypotheses_validated": {"codec_law (packageurl-go FromString . ToString = norm)": summary["packages"]},
         "extract_panics_seen (C02's subject, informational)": len(extract_panics),
         "translator": {"declared": len(types["declared"]), "valid_keys": len(types["valid_keys"]), "emitted": types["emitted"],
